@@ -407,6 +407,13 @@ def check_decoded(ctx, case):
     if t == "int":
         pt = parameter_types.IntegerParameterType("T", encodings.IntegerDataEncoding(case["bits"], case["sign"]))
         kind = "int"
+    elif t == "calint":
+        # calibrated integer: the value is a float, the raw value must stay the encoded integer, exactly
+        from space_packet_parser.xtce import calibrators
+        cal = calibrators.PolynomialCalibrator([calibrators.PolynomialCoefficient(0.5, 1), calibrators.PolynomialCoefficient(1.0, 0)])
+        pt = parameter_types.IntegerParameterType("T", encodings.IntegerDataEncoding(case["bits"], "unsigned",
+                                                                                     default_calibrator=cal))
+        kind = "float"
     elif t == "float":
         pt = parameter_types.FloatParameterType("T", encodings.FloatDataEncoding(case["bits"]))
         kind = "float"
@@ -441,6 +448,11 @@ def check_decoded(ctx, case):
         return ctx.fail("decoded-class", f"{case}: decoded {type(v).__name__}, expected {cls.__name__}", case)
     if not hasattr(v, "raw_value") or v.raw_value is None:
         return ctx.fail("decoded-raw-missing", f"{case}: decoded value has no raw_value", case)
+    if t == "calint":
+        bits = format(int.from_bytes(data, "big"), f"0{8 * len(data)}b")[offset:offset + case["bits"]]
+        if type(v.raw_value) is not int or v.raw_value != int(bits, 2):
+            return ctx.fail("decoded-raw", f"{case}: raw_value {v.raw_value!r} ({type(v.raw_value).__name__}) of a "
+                                           f"calibrated integer, the encoded value is {int(bits, 2)}", case)
     if t in ("int", "float", "bytes") and not same(_plain_any(v.raw_value), _plain_any(v)):
         return ctx.fail("decoded-raw", f"{case}: raw_value {v.raw_value!r} differs from uncalibrated value {v!r}", case)
     if not v.raw_value and not same(_plain_any(v.raw_value), _plain_any(v)):
@@ -528,7 +540,7 @@ def gen_packet(draw):
 
 @st.composite
 def gen_decoded(draw):
-    t = draw(st.sampled_from(["int", "float", "bool", "enum", "str", "bin"]))
+    t = draw(st.sampled_from(["int", "float", "bool", "enum", "str", "bin", "calint"]))
     if t == "float":
         bits = draw(st.sampled_from([16, 32, 64]))
     elif t == "str":
